@@ -10,7 +10,7 @@ Routine sets use the format of Driver/Ssbs.lean (harness/rsjson.py).
   cli.build      {settings: J, set}  → {json: J} | {err}
   cli.buildfixed {settings: J, set}  → {json: J} | {err}      (proposed repair: jump parameters written as positions)
   cli.read       {json: J}           → {set, named: [[id, name]]} | {err}
-  cli.docshape   {json: J}           → {ok}
+  cli.docshape   {json: J}           → {ok, str}               (documented structure; … with string position coordinates)
   cli.info       {set}               → {closed, positional, canon: set, renum: set, headers_ok}
 -/
 namespace Drv.CliD
@@ -60,7 +60,9 @@ def handle (op : String) (j : Json) : R Json := do
     | .ok rs => pure (Json.mkObj [("set", SsbsD.setTo (toSet rs)),
         ("named", jList (fun (r : RRoutine) => Json.arr #[jInt r.coro.1, .str r.coro.2]) rs)])
     | .error e => pure (errTo e)
-  | "cli.docshape" => pure (Json.mkObj [("ok", .bool (DocShape (← jOf (← fld j "json"))))])
+  | "cli.docshape" =>
+    let d ← jOf (← fld j "json")
+    pure (Json.mkObj [("ok", .bool (DocShape d)), ("str", .bool (DocShapeStr d))])
   | "cli.info" =>
     let c ← SsbsD.setOf (← fld j "set")
     pure (Json.mkObj [("closed", .bool (closedB c)), ("positional", .bool (positionalB c)),
